@@ -209,9 +209,9 @@ class C01(Check):
 
     def post(self, acc, tier):
         if tier == 'quick':
-            pick = [{'shape': s, 'cfg': list(c), 'seed': 1, 'bound': 0} for s, c in (('S2', (2, 0, 0)), ('S5', (2, 1, 1)), ('S4', (2, 0, 1)), ('S6', (1, 1, 0)))]
+            pick = [{'shape': s, 'cfg': list(c), 'seed': 1, 'bound': 0} for s, c in (('S2', (2, 0, 0)), ('S5', (2, 1, 1)), ('S4', (2, 0, 1)), ('S6', (1, 1, 0)), ('P:noise-seeds', (2, 0, 0)), ('P:dense-lookup', (2, 1, 1)), ('V:reject-seed', (2, 0, 0)), ('L:corral-imp', (1, 1, 1)))]
         else:
-            pick = [{'shape': s, 'cfg': list(c), 'seed': 1, 'bound': 0} for s in ('S2', 'S4', 'S5') for c in CONFIGS if c != (1, 0, 0)]
+            pick = [{'shape': s, 'cfg': list(c), 'seed': 1, 'bound': 0} for s in ('S2', 'S4', 'S5') for c in CONFIGS if c != (1, 0, 0)] + [{'shape': k + n, 'cfg': [2, 0, 0], 'seed': 1, 'bound': 0} for k, ns in (('P:', P.PIPES), ('L:', P.LEARNERS), ('V:', P.EVALUATORS)) for n in ns]
         self.setup(tier)
         n = self.real_runs(pick, acc)
         acc.traces += n
